@@ -62,8 +62,11 @@ MUTANTS = [
     # pollers ------------------------------------------------------------------------------------------------------
     # BasePoller.discard leaves the target entry (all pollers)
     ('c12-poller-discard-keeps-target', 'C12', P,
-     "        if fd in self._write:\n            self._write.remove(fd)\n        if fd in self._targets:\n            del self._targets[fd]\n\n    def getTarget(self, fd):",
+     "        if fd in self._write:\n            self._write.remove(fd)\n        if fd in self._targets:\n            del self._targets[fd]\n        self._read_targets.pop(fd, None)\n        self._write_targets.pop(fd, None)\n\n    def getTarget(self, fd):",
      "        if fd in self._write:\n            self._write.remove(fd)\n\n    def getTarget(self, fd):"),
+    ('c12-poller-discard-keeps-role-targets', 'C12', P,
+     "        self._read_targets.pop(fd, None)\n        self._write_targets.pop(fd, None)\n\n    def getTarget(self, fd):",
+     "\n    def getTarget(self, fd):"),
     # Poll gets the defect EPoll has on the pinned tree (stale _map entry after discard)
     ('c12-poll-map-entry-kept', 'C12', P,
      "            super().discard(fd)\n            with contextlib.suppress(KeyError):\n                del self._map[fileno]\n\n    def addReader(self, source, fd):\n        super().addReader(source, fd)\n        self._updateRegistration(fd)",
